@@ -18,11 +18,20 @@
                         error reports, in order of occurrence (from the last "A" on: LinkAppend)
      echo  : BOOLEAN    the peer's exact echo ff 05 01 was handed to the driver as the reply to one
                         of its start-up frames ("the peer confirmed it during link start-up")
+     conf  : BOOLEAN    the same for the FIRST start-up, before any pause request: the session the
+                        exactly-once claims are about
      slUsed: BOOLEAN    some main-loop frame carried sequence bits (header bits 3,2 # 11)
      nrFalse: BOOLEAN   the driver told the upper layer needs_resending = False
      peerSL: BOOLEAN    the peer is one "that supports safelink"
      failed: BOOLEAN    a link error has been reported (the histories acc/cf/cfq/got are those
                         "short of a link failure": the monitor freezes them at the first report)
+     closed: BOOLEAN    the application has asked the driver to pause (RadioDriver.pause()); the
+                        exactly-once claims end there as well (stop() abandons the frame in flight)
+   SESSIONS.  RadioDriver.pause()/restart() run a new comm thread, i.e. a new link start-up, on the
+   same driver object.  echo, slUsed, nrFalse and link are PER START-UP: they are reset when a
+   restart begins (SessionReset), so that "safelink is used only if the peer confirmed it during
+   link start-up" is asserted for every start-up against the confirmation of THAT start-up, and the
+   unacknowledged-run count begins anew with the new comm thread.
    Readings fixed in DESIGN 3.1(1) and reports/C01.md. *)
 EXTENDS Naturals, Sequences, FiniteSets
 
@@ -95,7 +104,7 @@ LastInPlace(s, t) == Len(s) = 0 \/ (Len(s) <= Len(t) /\ s[Len(s)] = t[Len(s)])
 
 \* exactly-once and in-order are claimed for sessions with a safelink peer in which the peer's
 \* confirmation reached the driver
-Claimed(h) == h.peerSL /\ h.echo
+Claimed(h) == h.peerSL /\ h.conf
 
 UpExactlyOnceInOrder(h)   == Claimed(h) => IsPrefix(h.cf, h.acc)
 DownExactlyOnceInOrder(h) == Claimed(h) => IsPrefix(h.got, h.cfq)
@@ -130,8 +139,11 @@ SafelinkOnlyIfConfirmed(h) == (h.slUsed \/ h.nrFalse) => h.echo
 \* consecutive transmissions were acknowledged, everything has arrived (every acknowledged
 \* transmission can carry one packet each way; the monitor decides `drained` from the trace)
 DrainNeed(h) == Len(h.acc) + Len(h.cfq) + 4
-UpComplete(h)   == Claimed(h) /\ ~h.failed => h.cf = h.acc
-DownComplete(h) == Claimed(h) /\ ~h.failed => h.got = h.cfq
+Frozen(h) == h.failed \/ h.closed
+UpComplete(h)   == Claimed(h) /\ ~Frozen(h) => h.cf = h.acc
+DownComplete(h) == Claimed(h) /\ ~Frozen(h) => h.got = h.cfq
+\* a restart (new start-up on the same driver object) begins: the per-start-up observations start anew
+SessionReset(h) == [h EXCEPT !.echo = FALSE, !.slUsed = FALSE, !.nrFalse = FALSE, !.link = <<>>]
 
 FirstBadLink(l, n) ==
     LET bad == {i \in 1..Len(l) : ~LinkItemOK(l, i, n)} IN
